@@ -288,7 +288,7 @@ def e2e_case(rng, mk, cls_list=None, api=None, force=None, malformed=None, fmt=N
         regs.append({"dest": dest, "cls": cls, "inst": inst_kw})
     case = {"api": api, "nest": nest, "regs": regs,
             "kw_before": [kw_before] if kw_before else [], "kw_after": [kw_after] if kw_after else [],
-            "ctor_files": ctor, "ctor_form": rng.choice(["str", "path", "list"]) if n_ctor == 1 else rng.choice(["list_str", "list_path", "tuple"]),
+            "ctor_files": ctor, "ctor_form": rng.choice(["str", "path", "list", "tuple"]) if n_ctor == 1 else rng.choice(["list_str", "list_path", "tuple"]),
             "add_arg": add_arg, "cli_files": cli, "cli_pos": rng.choice(["front", "back", "mid"]), "cmd": cmd}
     if malformed:
         inject(rng, case, malformed, mk)
@@ -324,8 +324,6 @@ def history_case(rng, mk):
         first = e2e_case(rng, mk)["case"]
         if first["ctor_files"] or first["cli_files"]:
             break
-    if first["ctor_form"] == "tuple":
-        first["ctor_form"] = "list_str"
     rounds = [first]
     for _ in range(rng.choice([1, 1, 2])):
         nxt = json.loads(json.dumps(rounds[-1]))
@@ -711,7 +709,6 @@ def model_case(case, obs):
         "regs": [{"dest": r["dest"], "cls": enc_cls(r["cls"]), "inst": None if r["inst"] is None else enc(r["inst"])} for r in c["regs"]],
         "kw_after": [enc(d) for d in c["kw_after"]],
         "ctor_files": [enc(f["data"]) for f in c["ctor_files"]],
-        "ctor_tuple": c["ctor_form"] == "tuple" and len(c["ctor_files"]) > 0,
         "add_arg": bool(c["add_arg"]) if c["add_arg"] is not None else None,
         "cli_files": None if c["cli_files"] is None else [enc(f["data"]) for f in c["cli_files"]],
         "cmd": enc(c["cmd"]),
@@ -981,16 +978,7 @@ def _null_erases(case, obs, fail):
     return False
 
 
-def _ctor_tuple(case, obs, fail):
-    c = case["case"]
-    if case["op"] != "layers.e2e" or fail.get("clause") != "unexpected-error":
-        return False
-    addarg_on = bool(c["add_arg"]) if c["add_arg"] is not None else bool(c["ctor_files"])
-    return (c["ctor_form"] == "tuple" and len(c["ctor_files"]) > 0 and c["cli_files"] is None and addarg_on
-            and obs["o"] == "raise" and obs.get("exc") == "TypeError")
-
-
-FINDINGS = {"C06-null-erases": _null_erases, "C06-ctor-tuple": _ctor_tuple}
+FINDINGS = {"C06-null-erases": _null_erases}
 
 
 def nontrivial(case, obs):
@@ -1087,7 +1075,7 @@ def neighbours(case, rng):
 
 
 MANIFEST = {
-    "text": ("Proof (partial: two named gaps). Lean theorems over an executable model of dict_union, "
+    "text": ("Proof (partial: one named gap). Lean theorems over an executable model of dict_union, "
              "DataclassWrapper.set_default, FieldWrapper.default, ArgumentParser.set_defaults/_add_arguments and the "
              "parse_known_args ordering: for every class tree, every list of sources and every leaf, the value that ends up in "
              "the instance is the command-line value if given, else the value of the last source whose section contains the "
@@ -1098,8 +1086,8 @@ MANIFEST = {
              "section at any depth makes set_default fail, with RuntimeError (c06_unknown_key_*); dict_union is right-biased "
              "at leaves and recursive on dicts. The full statement with 'explicit null = not mentioned' is refuted by a "
              "witness (a later null erases earlier sources: open finding C06-null-erases) and proved under the named "
-             "exclusion NoNullAt; a tuple config_path raising TypeError is reproduced by a second witness (open finding "
-             "C06-ctor-tuple). The model is tied to the code by three correspondence ops (dict_union, set_default on a real "
+             "exclusion NoNullAt (a tuple config_path raising TypeError was found by this check and repaired in /repo, "
+             "82d0eed; its input stays in the corpus as a regression case). The model is tied to the code by three correspondence ops (dict_union, set_default on a real "
              "wrapper, end-to-end through parse()/ArgumentParser with real json/yaml files, 1-2 destinations) and the "
              "property's own statement is evaluated on every real observation."),
     "note": ("Trusted: Lean kernel + propext/Classical.choice/Quot.sound; argparse, json, PyYAML, dataclasses (stdlib "
